@@ -98,6 +98,8 @@ def cases(tier, seed):
         yield {"id": "dir:" + os.path.relpath(d, repo), "kind": "dir", "path": os.path.relpath(d, repo)}
     for p in orphans:
         yield {"id": "file:" + os.path.relpath(p, repo), "kind": "file", "path": os.path.relpath(p, repo)}
+    for name in sorted(TEMPLATES2):
+        yield {"id": "t2:" + name, "kind": "gen2", "tmpl": name, "gseed": seed}
     n2, n1 = GEN_COUNTS["quick" if tier == "quick" else "thorough"]
     maxd = 3 if tier == "quick" else 4
     # interleave so that --limit still sees every kind
@@ -278,6 +280,55 @@ class Gen2:
     HISTORY_EVENTS = ["E1", "E2", "E3", "E4", "E5", "Tick", "Tick", "Xa", "Xb", "Xc", "Xd", "Xz", "Xa", "Xb"]
 
 
+_LEAVES2 = (
+    "flow fa\n  match Xa()\n\n"
+    "flow fb\n  match Xb()\n  send Mb()\n\n"
+    "flow fc\n  match Xc()\n  abort\n\n"
+    "flow fd\n  match Xd() or Xa()\n\n"
+    "flow fz\n  match Xz()\n  send Mz()\n\n"
+    "flow fy\n  match Xy()\n"
+)
+_F0 = {"when_else": 0, "when_multi": 0, "when": 0, "while": 0, "if": 0, "brk": 0, "groups": 0, "scoped_await": 0}
+# directed programs with a scripted history: they take the jumps the random histories rarely take twice
+TEMPLATES2 = {
+    "when_else_in_loop": (
+        "flow main\n  $i = 0\n  while $i < 3\n    when fc\n      send CaseA()\n    else\n      send ElseB()\n"
+        "    match Tick()\n    $i = $i + 1\n  send Done()\n  match Never()\n\n",
+        dict(_F0, when=1, when_else=1),
+        ["Xc", "Tick", "Xc", "Tick", "Xc", "Tick"],
+    ),
+    "when_or_when_else_in_loop": (
+        "flow main\n  $i = 0\n  while $i < 3\n    $i = $i + 1\n    when fc\n      send CaseA()\n    or when fc\n      send CaseB()\n"
+        "    else\n      send ElseB()\n      if $i == 2\n        break\n    match Tick()\n  send Done()\n  match Never()\n\n",
+        dict(_F0, when=1, when_else=1, brk=1),
+        ["Xc", "Tick", "Xc", "Tick", "Xc", "Tick"],
+    ),
+    "break_continue_in_if_in_when_in_while": (
+        "flow main\n  $x = 0\n  while $x < 4\n    $x = $x + 1\n    match Tick()\n    when E1()\n      if $x == 2\n        break\n"
+        "      send M1()\n    or when E2()\n      if $x == 1\n        continue\n      else\n        send M2()\n  send Done()\n  match Never()\n\n",
+        dict(_F0, when=1, brk=2),
+        ["Tick", "E2", "Tick", "E1", "Tick", "E2", "Tick", "E1"],
+    ),
+    "nested_while_groups": (
+        "flow main\n  $x = 0\n  while $x < 3\n    $x = $x + 1\n    match Tick()\n    $y = 0\n    while $y < 2\n      $y = $y + 1\n"
+        "      match E1() or (E2() and E3())\n      if $y == 1\n        continue\n      else\n        break\n    await fa or fb\n"
+        "  send Done()\n  match Never()\n\n",
+        dict(_F0, brk=2, groups=2, scoped_await=1),
+        ["Tick", "E1", "E3", "E2", "Xb", "Tick", "E2", "E3", "E1", "Xa", "Tick", "E1", "E1", "Xa"],
+    ),
+    "scoped_await_failure_path": (
+        "flow main\n  start fz\n  when fc or fc\n    send M1()\n  or when E5()\n    await fc or fc\n    send M2()\n  match Never()\n\n",
+        dict(_F0, when=1, when_multi=1, scoped_await=1),
+        ["E5", "Xc", "Xz"],
+    ),
+    "when_and_of_or_group_c07": (
+        "flow main\n  when fa and (fb and (fy or fz))\n    send Done()\n  match Never()\n\n",
+        dict(_F0, when=1, when_multi=1),
+        ["Xa", "Xb", "Xy"],
+    ),
+}
+
+
 class Gen1:
     """Colang 1.0 flow generator."""
 
@@ -332,17 +383,17 @@ class Gen1:
             return [p + rng.choice(["execute act%d" % self.uniq(), "$r%d = execute act%d(a=1)" % (self.uniq(), self.uniq())])]
         if r < 0.76:
             return [p + "do sub a"]
-        if r < 0.82 and top:
+        if r < 0.84 and top:
             name = "l%d" % self.uniq()
             self.labels.append(name)
             return [p + "label " + name]
-        if r < 0.88 and self.labels:
+        if r < 0.92 and self.labels:
             self.facts["goto"] += 1
             return [p + "goto " + rng.choice(self.labels)]
-        if r < 0.92 and depth < 3:
+        if r < 0.95 and depth < 3:
             self.facts["ret"] += 1
             return [p + rng.choice(["return", "stop", "return $x"])]
-        if r < 0.95:
+        if r < 0.97:
             return [p + "pass"]
         return [p + "bot b%d" % self.uniq()]
 
@@ -849,6 +900,16 @@ def _run_shipped(case):
         else:
             load_path = path
         cfg, skip = _load_shipped(load_path)
+        if cfg is None and skip == "unresolvable-import":
+            # some shipped configs import paths relative to the repository root (the test-suite's cwd)
+            here = os.getcwd()
+            try:
+                os.chdir(repo)
+                cfg, skip = _load_shipped(load_path)
+                if cfg is not None:
+                    obs["shipped_loaded_with_repo_cwd"] = 1
+            finally:
+                os.chdir(here)
         if cfg is None:
             obs["shipped_skip_" + skip] = 1
             return dict(base, verdict="inconclusive", reason="expected:shipped-skip:" + skip, observed=obs, nontrivial=False)
@@ -914,10 +975,16 @@ def _run_gen2(case):
     L = _W["L"]
     rng = random.Random(case["gseed"])
     g = Gen2(rng)
-    src = g.program(case["maxdepth"])
+    script = None
+    if case.get("tmpl"):
+        src, facts, script = TEMPLATES2[case["tmpl"]]
+        src = src + _LEAVES2
+        g.facts = dict(facts)
+    else:
+        src = g.program(case["maxdepth"])
     obs = {"gen2_programs": 1}
     base = {"key": _sha(src), "kind": "gen2", "facts": g.facts,
-            "sample": {"kind": "gen2", "program": src, "maxdepth": case["maxdepth"]}}
+            "sample": {"kind": "gen2", "program": src, "maxdepth": case.get("maxdepth"), "template": case.get("tmpl")}}
     try:
         parsed = L["parse"](filename="g.co", content=src, include_source_mapping=False, version="2.x")
         flows = parsed["flows"]
@@ -953,12 +1020,14 @@ def _run_gen2(case):
             ev = L["sm"].InternalEvent(name="StartFlow", arguments={"flow_id": "main"})
             out = v2h.run(st, ev)
             pending = []
-            for step in range(rng.randint(5, 10)):
+            for step in range(len(script) if script else rng.randint(5, 10)):
                 for o in out:
                     t = o.get("type", "")
                     if t.startswith("Start") and t.endswith("Action") and o.get("action_uid"):
                         pending.append((t[5:], o["action_uid"]))
-                if pending and rng.random() < 0.4:
+                if script:
+                    e = {"type": script[step]}
+                elif pending and rng.random() < 0.4:
                     name, uid = pending.pop(rng.randrange(len(pending)))
                     e = {"type": name + "Finished", "action_uid": uid, "is_success": True, "return_value": rng.choice([None, 1, "r"])}
                 else:
